@@ -51,6 +51,38 @@ def handle (op : String) (j : Json) : Except String Json := do
     let m := Json.mkObj [("rows", Json.arr ((rollingSame w (matchWin pat) false tail rows).map boolList).toArray)]
     let s := Json.mkObj [("rows", Json.arr ((specSame w (fun win => win == pat) false rows).map boolList).toArray)]
     pure (reply m (some s))
+  | "regex" | "fixedregex" =>
+    let rows ← getNatListList j "rows"
+    let raw ← getNatListList j "items"
+    let items ← raw.mapM (fun x => match x with
+      | [0] => pure (Item.elem Elem.any)
+      | 1 :: cs => pure (Item.elem (Elem.oneOf cs))
+      | [2, a, b] => pure (Item.gap a b)
+      | _ => throw "bad pattern item")
+    if op == "regex" then
+      let m := Json.mkObj [("rows", Json.arr ((regexMatch items rows).map boolList).toArray)]
+      let s := Json.mkObj [("rows", Json.arr ((specRegex items rows).map boolList).toArray)]
+      pure (reply m (some s))
+    else
+      let pat := items.filterMap (fun i => match i with | .elem e => some e | _ => none)
+      let m := Json.mkObj [("rows", Json.arr ((fixedRegex pat rows).map boolList).toArray)]
+      let s := Json.mkObj [("rows", Json.arr ((spec pat.length (matchFixed pat) rows).map boolList).toArray)]
+      pure (reply m (some s))
+  | "pwm_old" =>
+    let rows ← getNatListList j "rows"
+    let mat := (← getNatListList j "matrix").map (·.map ofBits)
+    let m := Json.mkObj [("rows", natListList ((motifScoresRolling Float.add (0.0 : Float) mat rows).map (·.map bitsOf)))]
+    let s := Json.mkObj [("rows", natListList ((specMotifScores Float.add (0.0 : Float) mat rows).map (·.map bitsOf)))]
+    pure (reply m (some s))
+  | "count_add" =>
+    let parts ← (← getArr j "parts").mapM (fun p => do
+      let a ← p.getArr?
+      a.toList.mapM asNatList)
+    let k ← getNat j "k"
+    let m := Json.mkObj [("counts", natList (parts.foldl (fun acc rows => addCounts acc (countKmers n k rows))
+      (List.replicate (n ^ k) 0)))]
+    let s := Json.mkObj [("counts", natList (specCountKmers n k parts.flatten))]
+    pure (reply m (some s))
   | "pwm" =>
     let rows ← getNatListList j "rows"
     let mat := (← getNatListList j "matrix").map (·.map ofBits)
@@ -77,9 +109,11 @@ def handle (op : String) (j : Json) : Except String Json := do
     let kms ← getNatListList j "kmers"
     let k ← getNat j "k"
     let hs := kms.map (kmerHash n)
-    let m := Json.mkObj [("codes", intList hs), ("text", Json.arr (hs.map (fun h => str (strOf (render alphabet k h.toNat)))).toArray)]
+    let m := Json.mkObj [("codes", intList hs), ("text", Json.arr (hs.map (fun h => str (strOf (render alphabet k h.toNat)))).toArray),
+                         ("inverse", natListList (hs.map (fun h => kmerInverse n k h.toNat)))]
     let s := Json.mkObj [("codes", intList (kms.map (fun x => (hashLE n x : Int)))),
-                         ("text", Json.arr (kms.map (fun x => str (strOf (letters alphabet x)))).toArray)]
+                         ("text", Json.arr (kms.map (fun x => str (strOf (letters alphabet x)))).toArray),
+                         ("inverse", natListList kms)]
     pure (reply m (some s))
   | _ => throw s!"C13: unknown op {op}"
 
